@@ -74,6 +74,11 @@ def refInterArea (p q : List P) : Rat :=
     (edges p).flatMap (fun e => (edges q).filterMap (fun f => segInter e.1 e.2 f.1 f.2))
   shoelaceAbs (hull pts)
 
+/-- the tokens after the `CS` marker of an answer -/
+def afterCS : List String → Option (List String)
+  | [] => none
+  | t :: rest => if t == "CS" then some rest else afterCS rest
+
 def showP (p : P) : String := s!"({showRat p.1},{showRat p.2})"
 
 def b2s (b : Bool) : String := if b then "1" else "0"
@@ -191,6 +196,43 @@ def handlePoly (args impl : List String) : String :=
     | _ => bad "poly impl"
   | _ => bad "poly args"
 
+/-- `box polyrot U5 angle`: `gen_vertices()` then the consuming `rotate(angle)` — the polygon the rotated box carries
+(if any) and the polygon it clips with must be the rectangle at the NEW angle -/
+def handlePolyRot (args impl : List String) : String :=
+  match parseU args with
+  | some (u, [angT]) =>
+    match rat? angT, impl with
+    | some ang, c :: s :: rest =>
+      match rat? c, rat? s with
+      | some c, some s =>
+        let u' := { u with angle := some ang }
+        let mv := vertices u' c s
+        let w := u.height * u.aspect
+        let scale := rabs u.xc + rabs u.yc + w + u.height
+        let tolv := scale / 1000000000
+        let (cachedOk, hasCache, rest') : Bool × Bool × List String := match rest with
+          | "-" :: r => (true, false, r)
+          | "P" :: r => (match parseRats 8 r with
+            | some ([a, b, c2, d, e, f, g, h], r') =>
+              let iv : List P := [(a, b), (c2, d), (e, f), (g, h)]
+              ((mv.zip iv).all (fun (m, i) => decide (rabs (m.1 - i.1) ≤ tolv) && decide (rabs (m.2 - i.2) ≤ tolv)), true, r')
+            | _ => (false, true, []))
+          | r => (false, false, r)
+        match rest' with
+        | [clipT, areaT] =>
+          match rat? clipT, rat? areaT with
+          | some clip, some areaI =>
+            let kClip := close clip (w * u.height) (1/100000) (1/1000000)
+            let kArea := close areaI (w * u.height) (1/100000) 0
+            res (cachedOk && kClip && kArea && close (c * c + s * s) 1 (1/1000000000) 0) (cachedOk && kClip)
+              (["rotate-after-gen"] ++ flag hasCache "cache-carried" ++ flag u.angle.isSome "was-rotated")
+              s!"cached={cachedOk} clip={kClip}"
+          | _, _ => bad "polyrot numbers"
+        | _ => bad "polyrot tail"
+      | _, _ => bad "polyrot cs"
+    | _, _ => bad "polyrot impl"
+  | _ => bad "polyrot args"
+
 def handleConv (args impl : List String) : String :=
   match parseRats 5 args, parseRats 8 impl with
   | some ([l, t, w, h, cf], []), some ([xc, yc, asp, hh, l2, t2, w2, h2], []) =>
@@ -278,6 +320,7 @@ def handleBox (args impl : List String) : String :=
   match args with
   | "conv" :: a => handleConv a impl
   | "poly" :: a => handlePoly a impl
+  | "polyrot" :: a => handlePolyRot a impl
   | "eq" :: a => handleEq a impl
   | "beq" :: a => handleBeq a impl
   | "norm" :: a => handleNorm a impl
